@@ -56,6 +56,8 @@ ObsCStep(o, e) ==
         asked == c \in DOMAIN o.asked
         F == (IF was = "Disc" /\ now # "Disc" THEN {<<"C20", "BothSides">>} ELSE {})
              \cup (IF was # "Disc" /\ now = "Disc" /\ ~asked /\ ~o.cfg.allow_timeouts THEN {<<"C20", "OnlyTimeouts">>} ELSE {})
+             \* C11: the disconnection of OTHER clients (somebody was asked to go, this one was not) does not end this client's session
+             \cup (IF was # "Disc" /\ now = "Disc" /\ ~asked /\ ~o.cfg.allow_timeouts /\ DOMAIN o.asked # {} THEN {<<"C11", "Bystander">>} ELSE {})
     IN Flag([o EXCEPT !.cst = Put(@, c, now)], F)
 
 \* a server side disconnect of an id the message layer does not list is a no-op (ok = FALSE): no session was asked to end
@@ -103,6 +105,8 @@ ObsRoundEnd(o, e) ==
         notUp == {c \in Range(o.cfg.clients) : c \notin DOMAIN o.asked /\ c \notin o.everUp}
         F == (IF o.healed /\ halfOpen # {} THEN {<<"C20", "BothSides">>} ELSE {})
              \cup (IF due /\ late # {} THEN {<<"C20", "E2E_Live">>} ELSE {})
+             \* C11 across the full stack: the disconnection of one client does not drop the traffic of the others
+             \cup (IF due /\ late # {} /\ DOMAIN o.asked # {} THEN {<<"C11", "Bystander">>} ELSE {})
              \cup (IF due /\ notUp # {} /\ ~o.cfg.allow_timeouts THEN {<<"C20", "Connects">>} ELSE {})
     IN Flag([o EXCEPT !.rounds = r, !.asked = asked1], F)
 
